@@ -16,11 +16,12 @@
    `same_sample_centroid` leaves out sample["instances"], which the centroid model's targets are
    not drawn from.
 
-   The property's clause (a) is FALSE of the current tree in three ways (c18_F180_refuted,
-   c18_F181_refuted, c18_F182_refuted); the strongest true statements are
+   The property's clause (a) was FALSE of the tree at afd312c in three ways (c18_F180_refuted,
+   c18_F181_refuted, c18_F182_refuted); F180 and F181 are repaired since (3278fb5, 30d1c17: both flags true on
+   the CURRENT tree), F182 is still open; the strongest true statements are
    c18_frameworks_agree_partial / c18_samples_agree_partial under the complements of the exact,
    decidable selectors sel_F180 / sel_F181 / sel_F182 (mirrored in the Python oracle), and
-   c18_frameworks_agree_repaired for the tree with proposed_fixes/C18_F180.diff + C18_F181.diff.
+   c18_frameworks_agree_repaired for the tree with both repairs (the current one).
    `domain` / c18_frameworks_agree / c18_single_mem_str ... below are the COMPONENT theorems about
    `pipeline` (all frameworks handed the same bounds; single-instance with max_instances = 1):
    `domain` is NOT the property's domain (review finding 2) — `agree_domain` is.
@@ -430,7 +431,7 @@ Lemma sel_F181_def : forall t x fr, sel_F181 t x fr =
 Proof. reflexivity. Qed.
 Print Assumptions sel_F181_def.
 
-(* the property's clause (a), strongest true form on the current tree: outside the two selectors
+(* the property's clause (a), strongest true form on a tree WITHOUT the repairs 3278fb5 / 30d1c17 (historic since): outside the two selectors
    every pair of frameworks returns the same sample (all types at scale 1; single, centroid,
    bottom-up at any scale) *)
 Theorem c18_frameworks_agree_partial : forall t x c fr,
